@@ -1,14 +1,15 @@
-(* Obligation C20/poisson_pmf_closed_form.  Statement as printed by Coq from Inferno.C20.DistProofs; proof by reference.
+(* Obligation C20/poisson_pmf_closed_form.  Statement as printed by Coq from Inferno.C20.DistPoisson; proof by reference.
    This file contains nothing else, so the statement cannot be weakened quietly. *)
 From Coq Require Import Reals List ZArith Bool.
 From Coquelicot Require Import Coquelicot.
 From Flocq Require Import Core.Raux.
-From Inferno Require Import Base.Num Base.NumR C20.Model C20.Spec C20.DistProofs.
+From Inferno Require Import Base.Num Base.NumR Gen.Distributions C20.Model C20.Spec C20.DistPoisson.
 Import ListNotations.
 Open Scope R_scope.
-Theorem poisson_pmf_closed_form : forall (k : nat) (rate : R),
+Theorem poisson_pmf_closed_form : forall (lg : R -> R) (k : nat) (rate : R),
+  lgamma_spec lg ->
   0 < rate ->
-  poisson_pmf RN k rate = Rtrigo_def.exp (poisson_logpmf RN k rate) /\
-  poisson_pmf RN k rate = rate ^ k / INR (fact k) * Rtrigo_def.exp (- rate).
-Proof. exact (@Inferno.C20.DistProofs.poisson_pmf_closed_form). Qed.
+  poisson_pmf RN lg (INR k) rate = Rtrigo_def.exp (poisson_logpmf RN lg (INR k) rate) /\
+  poisson_pmf RN lg (INR k) rate = rate ^ k / INR (fact k) * Rtrigo_def.exp (- rate).
+Proof. exact (@Inferno.C20.DistPoisson.poisson_pmf_closed_form). Qed.
 Print Assumptions poisson_pmf_closed_form.
